@@ -8,6 +8,10 @@
 (* resets empty their target): between its invoke and its return every     *)
 (* operation takes effect at one instant (internal action Lin), and what   *)
 (* the operation returned is what the sequential mock returns there.       *)
+(* ResetCalls is NOT required to be one atomic step over all methods: C05  *)
+(* asks for no race / no lost, duplicated or torn record, and the mock has *)
+(* one lock per method, so ResetCalls takes effect per method, each at its *)
+(* own instant between invoke and return (any order).                      *)
 (* TLC searches all placements of the Lin steps; a history is accepted iff *)
 (* some placement consumes all its events.  A record is identified by the  *)
 (* code all its fields decode to (-1: fields from different calls).        *)
@@ -23,7 +27,7 @@ VARIABLES llog,    \* method -> sequence of record codes   (sequential mock stat
           l
 lvars == <<llog, pend, l>>
 
-Idle == [st |-> "idle", what |-> "", m |-> "", id |-> 0, out |-> << >>]
+Idle == [st |-> "idle", what |-> "", m |-> "", id |-> 0, out |-> << >>, todo |-> {}]
 Ev == Trace[l]
 Hi(n) == TLCSet(1, IF TLCGet(1) > n THEN TLCGet(1) ELSE n)
 
@@ -40,7 +44,8 @@ Reset == /\ l <= Len(Trace) /\ Ev.op = "reset"
 
 Invoke == /\ l <= Len(Trace) /\ Ev.op = "inv"
           /\ pend[Ev.g].st = "idle"
-          /\ pend' = [pend EXCEPT ![Ev.g] = [st |-> "inv", what |-> Ev.what, m |-> Ev.m, id |-> Ev.id, out |-> << >>]]
+          /\ pend' = [pend EXCEPT ![Ev.g] = [st |-> "inv", what |-> Ev.what, m |-> Ev.m, id |-> Ev.id, out |-> << >>,
+                                                 todo |-> IF Ev.what = "resetall" THEN Methods ELSE {}]]
           /\ l' = l + 1 /\ Hi(l)
           /\ UNCHANGED llog
 
@@ -53,8 +58,10 @@ Lin(g) == /\ pend[g].st = "inv"
                                          /\ UNCHANGED llog
                [] p.what = "resetm"   -> /\ llog' = [llog EXCEPT ![p.m] = << >>]
                                          /\ pend' = [pend EXCEPT ![g].st = "lin"]
-               [] p.what = "resetall" -> /\ llog' = [m \in Methods |-> << >>]
-                                         /\ pend' = [pend EXCEPT ![g].st = "lin"]
+               [] p.what = "resetall" -> \E m \in p.todo :          \* one method's records at a time
+                                         /\ llog' = [llog EXCEPT ![m] = << >>]
+                                         /\ pend' = [pend EXCEPT ![g].todo = @ \ {m},
+                                                                  ![g].st = IF p.todo = {m} THEN "lin" ELSE "inv"]
           /\ UNCHANGED l
 
 Return == /\ l <= Len(Trace) /\ Ev.op = "ret"
